@@ -42,7 +42,9 @@ def sandbox(files: dict | None):
         for name, content in (files or {}).items():
             p = Path(d) / name
             p.parent.mkdir(parents=True, exist_ok=True)
-            if isinstance(content, str):
+            if isinstance(content, dict) and "tbl" in content:      # a .tbl file given as (text, code bytes) entries
+                p.write_text("".join(f"{bytes(code).hex().upper()}={text}\n" for text, code in content["tbl"]), encoding="utf-8")
+            elif isinstance(content, str):
                 p.write_text(content, encoding="utf-8")
             else:
                 p.write_bytes(bytes(content))
